@@ -676,7 +676,11 @@ func c23Diag(toks []c23Tok, cd *c23Cand, mode int) bool {
 						nl = 1
 					}
 				}
-				if mode == c23DiagLeftmost {
+				if off == 0 && lead == 0 && !t.hidden && comp[0] == '.' {
+					// first segment of the element is a wildcard without
+					// match-hidden: the first-segment rule refuses the name
+					stop = false
+				} else if mode == c23DiagLeftmost {
 					if committed || !fits(ti+1, comp, off, nl) {
 						stop = false
 					} else {
